@@ -9,7 +9,7 @@ EXPLANATION = (
     "re-read after evictions (FanoutMany), retain closures evict only on Ready(Err) (Router); (D3) PollAI on both routers with every peer outcome "
     "including Err/None at every step: no reachable unwrap()/expect() on a failed result (K2), no reachable explicit panic in the router region (via "
     "C11.D2's enumeration), nothing dropped unflushed (K10); (D4) when the bound replier's stream ends the replier is unbound before the router "
-    "moves on (K12) so that another can bind. What a real QUIC peer does and fairness are NOT decided.")
+    "moves on (K12) so that another can bind. What a real QUIC peer does and fairness are NOT decided. Also K6: no router poll can go round for ever without consuming anything (a spinning router serves nobody).")
 ASSUMPTIONS = ["operation table of DESIGN §5; a boxed peer sink/stream may fail at any operation"]
 
 
@@ -41,6 +41,6 @@ def run(ctx):
     ok = len(gm) == 1 and len(rm) == 1 and flow.root_local(rs, gm[0].args[1]) == flow.root_local(rs, rm[0].args[1])
     ctx.check(ok, "C08.D1.evict-addressed", "router:start_send:evicts-other", "Router::start_send evicts exactly the entry it addressed when that entry's start_send fails", rs.span)
     for which in ("pubsub", "reqrep"):
-        ex, sd, cfg = routers.report(ctx, F, which, "C08", lambda f: f.kind in ("K2", "K4", "K5", "K10", "K12", "K13", "K14"))
+        ex, sd, cfg = routers.report(ctx, F, which, "C08", lambda f: f.kind in ("K2", "K4", "K5", "K6", "K10", "K12", "K13", "K14"))
         ctx.floor("C08.%s.unwrap-sites-evaluated" % which, sum(1 for c in cfg.body.calls() if strip_generics(c.callee) in panics.UNWRAPS), 3)
         ctx.ok("C08.pollai", "%s router: every Option/Result unwrap evaluated path-sensitively in %d reachable (block,state) nodes with failing peers" % (which, len(ex.it.nodes)), cfg.body.span)
